@@ -42,12 +42,15 @@ type Tr struct {
 	lemmaDepth   int
 	stores       map[string]storeRec
 	freshRefs    map[string]bool
+	symTop       map[string]string
+	lastLoadTop  string
+	heapKind     map[string]string
 }
 
 func newTr(g *Global, fn *ssa.Function, key string, fc *FuncContract) *Tr {
 	return &Tr{g: g, fn: fn, key: key, fc: fc, sc: newScript(), initVars: map[string]Value{}, heapSorts: map[string]string{},
 		typeFactDone: map[string]bool{}, oblCount: map[string]int{}, assumptions: map[string]bool{}, cntSyms: map[string]string{},
-		stores: map[string]storeRec{}, freshRefs: map[string]bool{}}
+		stores: map[string]storeRec{}, freshRefs: map[string]bool{}, symTop: map[string]string{}, heapKind: map[string]string{}}
 }
 
 type retPoint struct {
@@ -504,6 +507,13 @@ func (tr *Tr) mergeStates(sts []*State) *State {
 		tops[i] = s.top
 	}
 	out.top = tr.mergeLeaf("top", false, "", tops, guards)
+	for name := range tr.heapSorts {
+		if v, ok := out.vars[name]; ok {
+			if _, known := tr.symTop[v.(Sc).T]; !known {
+				tr.symTop[v.(Sc).T] = out.top
+			}
+		}
+	}
 	return out
 }
 
@@ -847,6 +857,12 @@ func (tr *Tr) cutLoopEntry(fr *Frame, li *loopInfo, st *State, entryPhis map[*ss
 	nt := tr.freshSym("top", false)
 	tr.sc.fact(sLe(st.top, nt))
 	hst.top = nt
+	for name, mi := range mods {
+		if mi.sort != "" {
+			tr.symTop[hst.vars[name].(Sc).T] = nt
+			tr.heapVersionAxiom(name, hst.vars[name].(Sc).T, mi.sort, nt)
+		}
+	}
 	for p := range entryPhis {
 		fr.vals[p] = tr.freshValue(p.Type(), phiName(p), hst)
 	}
